@@ -1506,6 +1506,16 @@ impl Sim {
                 Ok((after, charged)) => {
                     obs.require(after as u128 + charged as u128 == collateral as u128 && charged as u128 == fee, "C32", "increment_split", || "ok".into(), || format!("increment {collateral}: after {after} + fee {charged} (computed fee {fee})"));
                     obs.probe("c32_fee_on_increase");
+                    // The stub keeps nothing back in the order's escrow (the whole increment went to the
+                    // market), so recording the charge leaves the escrow short of the recorded fee: the
+                    // state in which settlement must pay only what the escrow holds and still zero the record.
+                    if charged > 0 {
+                        let tok = read_pod::<gmsol_store::states::Order>(&self.w, &key).and_then(|o| o.tokens().final_output_token().token());
+                        if tok == Some(out_mint) && self.w.get(&ata(&key, &out_mint)).is_some() {
+                            recorded = charged;
+                            obs.fault("escrow_short_of_recorded_fee");
+                        }
+                    }
                 }
                 Err(_) => {
                     obs.require(fee > collateral as u128, "C32", "increment_split", || "err".into(), || format!("charging fee {fee} on increment {collateral} failed although the increment covers it"));
